@@ -201,6 +201,30 @@ def gen_space(r, n, family):
         c["kern"] = "matrix"
         m = metric_path(r, n)
         c["km"] = kernel_of_metric([[2 * x for x in row] for row in m])
+    elif family == "kernel-lin-wide":
+        # kernel values with more than 24 significant bits (k(x,x) up to 2^41), still exact in double and with
+        # perfect-square induced distances: 1-D coordinates up to 2^20, or collinear (3t, 4t) with t < 2^18
+        c["cb"] = "kernel"
+        c["kern"] = "lin"
+        base = r.choice([0, 1 << 12, 1 << 19])
+        if r.chance(1, 2):
+            c["pts"] = [[base + r.below(1 << 20)] for _ in range(n)]
+        else:
+            c["pts"] = [[3 * t, 4 * t] for t in ((base >> 2) + r.below(1 << 18) for _ in range(n))]
+    elif family == "kernel-ultra-wide":
+        c["cb"] = "kernel"
+        c["kern"] = "matrix"
+        levels = sorted({2 * (1 + r.below(1 << 19)) for _ in range(r.range(1, 5))})
+        c["km"] = kernel_of_metric(metric_ultra(r, n, levels=levels))
+    elif family == "wide-mantissa":
+        # coordinates 1 + j*2^-30 (and 2^10 + j*2^-30): > 24 significant bits, every difference exact
+        c["cb"] = "plain"
+        c["metric"] = r.choice(["L1", "Linf"])
+        c["sh"] = 30
+        d = r.choice([1, 2, 3])
+        big = r.choice([1 << 30, 1 << 40])
+        spread = r.choice([1 << 6, 1 << 16, 1 << 26])
+        c["pts"] = [[big + r.below(spread) for _ in range(d)] for _ in range(n)]
     elif family == "coincident":
         c["cb"] = "plain"
         c["metric"] = "L1"
@@ -233,7 +257,7 @@ def pts_volume(r, n):
 
 
 FAMILIES = ["lattice", "grid", "dups", "clustered", "generic", "tree", "path", "ultra", "wide",
-            "kernel-lin", "kernel-ultra", "kernel-path", "coincident"]
+            "kernel-lin", "kernel-ultra", "kernel-path", "coincident", "kernel-lin-wide", "kernel-ultra-wide", "wide-mantissa"]
 
 
 def vantage_stream(r, n):
